@@ -4,7 +4,7 @@ from ..core import hx, lst, WILD
 from ..ref import P, L, to32, le
 
 REQUIRED = ['slice:len', 'array:random', 'array:corner', 'verify:random', 'verify:exceptional', 'batch:random', 'map:exceptional',
-            'ctx:len', 'x25519:exceptional', 'total-constructors']
+            'ctx:len', 'x25519:exceptional', 'total-constructors', 'msm:expect']
 
 SLICE_OPS = ['ed.fromslice', 'ed.tryfrom', 'rs.fromslice', 'rs.tryfrom', 'sig.sk_tryfrom', 'sig.vk_tryfrom', 'sig.sig_fromslice',
              'sig.esk']
@@ -125,6 +125,16 @@ def gen(ctx, n):
         pl[pos] = '~'
         ctx.add('ed.omsm', lst([sc1] * big), lst(pl), cls='batch:random')
         ctx.add('rs.omsm', lst([sc1] * big), lst(pl), cls='batch:random')
+    # the non-optional trait entry points wrap the optional ones in expect("should return some point"): every size class
+    for nn in (0, 1, 2, 189, 190, 191):
+        scs = lst(['c' + to32(rng.randrange(L)).hex() for _ in range(nn)])
+        ctx.add('ed.vmsm', scs, lst(['B'] * nn), cls='msm:expect')
+        ctx.add('rs.vmsm', scs, lst(['B'] * nn), cls='msm:expect')
+        ctx.add('ed.msm', scs, lst(['B'] * nn), cls='msm:expect')
+        ctx.add('ed.precomp', lst(['B'] * min(nn, 3)), lst(['c' + to32(rng.randrange(L)).hex() for _ in range(min(nn, 3))]), scs,
+                lst(['B'] * nn), cls='msm:expect')
+        ctx.add('rs.precomp', lst(['B'] * min(nn, 3)), lst(['c' + to32(rng.randrange(L)).hex() for _ in range(min(nn, 3))]), scs,
+                lst(['B'] * nn), cls='msm:expect')
     seed0 = vals.rb(rng, 32)
     pk0 = ref.ed_public(seed0)
     msgs, sigs = [], []
